@@ -191,7 +191,8 @@ def run_cases(mod, ctx, only=None, observer=None):
         if observer is not None:
             # the observer costs ~6x on the instrumented functions: watch the first cases of every monitor only
             # (directed cases are generated first), then switch it off for that monitor
-            want = ctx.monitor_evals.get(name, 0) < OBSERVE_QUOTA and obs_time.get(name, 0.0) < OBSERVE_SECONDS
+            want = ctx.monitor_evals.get(name, 0) < OBSERVE_QUOTA and obs_time.get(name, 0.0) < OBSERVE_SECONDS \
+                and name not in getattr(mod, "NO_OBSERVE", ())
             if want != observing:
                 (observer.resume if want else observer.pause)()
                 observing = want
